@@ -195,26 +195,49 @@ func runC13(t *testing.T, run *mc.Run) int {
 			synctest.Wait()
 			gate := make(chan error)
 			r.w.gate = gate
+			defer func() { // whatever happens below, nobody stays parked at the gate when the bubble ends
+				select {
+				case gate <- nil:
+				default:
+				}
+				synctest.Wait()
+			}()
 			for i := 0; i < backlog; i++ {
 				r.audits <- auditgen.Simple("USER_ACCT", 1700000040+int64(i), 5000+i, "7", "4242", "success").Recs[0].Line + "\n"
 			}
 			synctest.Wait() // the parser is inside the write of an event; the rest waits in the buffer
 			left := len(r.audits)
-			if left < backlog-3 {
-				return fmt.Sprintf("inconclusive set-up: only %d of %d lines left in the buffer while the first write is held", left, backlog)
+			if left < backlog/2 {
+				// (an implementation that moves lines on to a stage of its own before parsing them: the state this
+				// cell is about - a backlog in the line buffer - was not reached; nothing is judged)
+				run.Note("audit-processor backlog cell: only %d of %d lines were left in the buffer while the first write was held; not judged", left, backlog)
+				return ""
 			}
 			r.cancel()
 			synctest.Wait()
+			released := false
 			if !r.returned {
-				return "the audit processor is still running after its context was cancelled"
+				// (a processor that waits for the event write in progress before it returns: the write is let go)
+				select {
+				case gate <- nil:
+					released = true
+				default:
+				}
+				vsleep(1e9)
+				if !r.returned {
+					return "the audit processor is still running after its context was cancelled (the event write it was in has completed)"
+				}
 			}
-			atReturn := len(r.w.writes)
-			select {
-			case gate <- nil:
-			default:
+			atReturn, leftAtReturn := len(r.w.writes), len(r.audits)
+			if !released {
+				select {
+				case gate <- nil:
+				default:
+				}
+				leftAtReturn = left
 			}
 			vsleep(10e9)
-			taken, written := left-len(r.audits), len(r.w.writes)-atReturn
+			taken, written := leftAtReturn-len(r.audits), len(r.w.writes)-atReturn
 			if taken > 64 || written > 64 {
 				return fmt.Sprintf("after the processor had returned, %d more lines were taken from the buffer and %d events written (the buffer held %d lines)", taken, written, left)
 			}
